@@ -46,7 +46,8 @@ CHECKS = {
    category='model_checking',
    text='CATCH/CROAK tests, the external-code flag write filter and the TERMINATE gate are stated in Vise.tla; ViseMC checks TerminateBlocks on model programs whose '
         'external functions set/reset reserved, TERMINATE, LANG and client flags; on real runs TLC compares flag bits, control transfer and the blocked-run behaviour of '
-        'every iteration with the spec step applied to the logged pre-state.',
+        'every iteration with the spec step applied to the logged pre-state.'
+        ' Request level (C06_ReqCtl): whether the session ends or goes to the catch node, the position and the client flags after a request are those of the specification run from the session as it was before the request.',
    design_ref='DESIGN.md section 6 (C06)',
    note='Trusted: TLC, verif hook, recording resource. READIN/INMATCH are charged to C03.',
    technique='TLA+ interpreter spec + TLC model checking + per-instruction trace validation'),
@@ -67,7 +68,8 @@ CHECKS = {
         'run on the real engine under recover() and a watchdog, in long-lived and persisted mode over three stores; TLC judges every iteration and request (no panic, levels, '
         'accounting, saved-and-loadable).'
         ' Engine options (ResetOnEmptyInput, WithFirst incl. failing / blocking pre-VM checks) are part of the model programs and drawn for random programs.'
-        ' ViseInd.tla shows the session invariants (one scope per level, accounting, path, no panic, TERMINATE gate) to be inductive over the run-loop iteration: one Iter from every invariant-satisfying session of a bounded universe.',
+        ' ViseInd.tla shows the session invariants (one scope per level, accounting, path, no panic, TERMINATE gate) to be inductive over the run-loop iteration: one Iter from every invariant-satisfying session of a bounded universe.'
+        ' A refused request (bad format, over-long) leaves the pending code pending (C08_RefusedContinuable).',
    design_ref='DESIGN.md section 6 (C08)',
    note='Trusted: TLC, recorder, generator of well-formed programs. Known findings (CROAK keeps path; maxlevel panic) are matched by specific predicates, everything else fails the check. Example applications: see evidence.',
    technique='TLA+ interpreter spec + TLC model checking + trace validation of recorded real runs (exhaustive small histories, random beyond)'),
@@ -75,7 +77,8 @@ CHECKS = {
    category='model_checking',
    text='Reject / FlushBeforeExec are explicit no-op transitions of Engine.tla; ViseMC inserts refused inputs (bad format, over-long) at every position of every model '
         'history and checks RejectNoEffect; on the real engine TLC compares the session before/after every refused request (position, flags, cache, code, stored record, '
-        'no instruction, no external call, no output) and paired runs with/without inserted refused inputs must give identical transcripts.',
+        'no instruction, no external call, no output) and paired runs with/without inserted refused inputs must give identical transcripts.'
+        ' Applications with a pre-VM check are judged too (C17_RefusedFirst: position, cache scopes, pending code, language unchanged; outcome as the specification says).',
    design_ref='DESIGN.md section 6 (C17)',
    note='Trusted: TLC, recorder; input classes computed by the harness from the documented pattern, independently of vm.ValidInput. Custom validators (AddValidInput) not covered.',
    technique='TLA+ spec + TLC model checking + trace validation incl. two-run comparison'),
@@ -83,7 +86,8 @@ CHECKS = {
    category='model_checking',
    text='lang is a persisted variable of the spec and every resource lookup is an observable event carrying the context language; ViseMC checks LangReaches on programs '
         'that switch language with valid/invalid/empty codes; on the real engine the recording resource logs the context language of every code/template/menu/function lookup and TLC '
-        'checks them against the session language, the language transition of every external call, and that the language survives save/load.',
+        'checks them against the session language, the language transition of every external call, and that the language survives save/load.'
+        ' The end-to-end stage runs half of the applications with Config.Language, lets programs end gracefully and sessions start over, and checks that the session language is the configured one until a function selects another and the selected one from then on (C18_LangKept).',
    design_ref='DESIGN.md section 6 (C18)',
    note='Trusted: TLC, recording resource, ISO-639 table. Translation fallback of DbResource is exercised in C10.',
    technique='TLA+ spec + TLC model checking + trace validation of logged lookups'),
@@ -111,7 +115,8 @@ CHECKS = {
    text='The contract of C02 (Partition, StaticEverywhere, NavOffered, OfferedRenders, PastEndIsError, NoPanic) is stated over the family of pages of one configuration; TLC '
         'enumerates all configurations of the bound, checks the clauses the algorithm model satisfies, and every configuration is rendered by the real code for every page '
         'index from 0 to beyond the end; TLC evaluates the contract on the real page families and compares the real grouping with the algorithm transcription.'
-        ' Engine level (walk-run): a client walks a paged node with the next selector, visits a second paged node and walks the first again, with one long-lived engine and with an engine per request; TLC judges Partition / Nav / Static / NoFail per walk.',
+        ' Engine level (walk-run): a client walks a paged node with the next selector, visits a second paged node and walks the first again, with one long-lived engine and with an engine per request; TLC judges Partition / Nav / Static / NoFail per walk.'
+        ' Content that fits on one page (length computed by the recorder) must be shown (C02_FitsThenShown).',
    design_ref='DESIGN.md section 6 (C02)',
    note='Trusted: TLC, the recorder\'s parsing of a page into static text / sink lines / menu lines. Two known findings (empty row at a page start dropped; next into an oversize page) are excused only where the real family equals the pinned algorithm transcription.',
    technique='TLA+ spec + TLC exhaustive enumeration + contract evaluation on real page families'),
@@ -120,7 +125,8 @@ CHECKS = {
    text='PgTx.tla models the pgDb handle (tx, multi; Start/Stop/Abort/Put/Get split into primitive driver calls) over a transactional server with the aborted-transaction rule '
         'and a fault plan; TLC explores all operation sequences to a bound with every placement of 1-2 failing primitives and checks NoPanic, ErrorReported, NoWedge/AckedVisible, '
         'EndedOnce, Multi against a keyed-map oracle; every behaviour is executed on the real pgDb over an in-process fake of the pgx interface and TLC judges every real operation '
-        'against the oracle folded over the recorded sequence.',
+        'against the oracle folded over the recorded sequence.'
+        ' Statements may also fail on the client side (transaction not poisoned); the committed content of the server is observed after every operation: nothing becomes durable that was never acknowledged (C13_NoUnackedDurable).',
    design_ref='DESIGN.md section 6 (C13)',
    note='Trusted: TLC, fakepg (120-line transactional fake), oracle in PgTx.tla. One known finding (sticky multi) excused only for operations after an explicit transaction has ended on the handle.',
    technique='TLA+ spec (PgTx.tla) + TLC exhaustive fault enumeration + trace validation of the real handle over a fake server'),
@@ -146,7 +152,8 @@ CHECKS = {
    category='model_checking',
    text='Asm.tla translates abstract source lines to instruction records incl. the documented batch expansion; TLC enumerates all programs of up to 2/3 lines over every opcode, the selector '
         'alphabet, width-boundary sizes and all subsets/orders of batch lines, checks the expansion shape, and every program (also with comments / blank lines, and random programs up to 30 lines) '
-        'is assembled by the real asm.Parse; the bytes are decoded by the harness\'s own decoder and TLC compares them with Translate(src).',
+        'is assembled by the real asm.Parse; the bytes are decoded by the harness\'s own decoder and TLC compares them with Translate(src).'
+        ' The builtin node name _catch is part of the symbol universes.',
    design_ref='DESIGN.md section 6 (C16)',
    note='Trusted: TLC, harness printer and decoder. One known finding (numeric-looking selectors are altered) excused only for sources containing such a selector.',
    technique='TLA+ spec (Asm.tla) + TLC enumeration + trace validation of the real assembler'),
@@ -164,7 +171,8 @@ CHECKS = {
    text='The storage key is modelled as a character sequence; TLC checks injectivity of the encoding over all (type, session, key) with adversarial strings up to length 2 (separators, path '
         'elements, type-prefix characters) and emits every colliding pair; each pair is replayed on the real backends as write-under-a / read-under-b, random adversarial histories are recorded, and '
         'TLC checks on every real read / listing that the returned value was written under the same data type and session (unique values carry their provenance).'
-        ' Sessions working at the same time on one filesystem directory through their own handles read back only what they wrote (C11_ConcOwnData); listings of the Postgres driver (key-range scan on the fake) are judged for cross-type / cross-session entries.',
+        ' Sessions working at the same time on one filesystem directory through their own handles read back only what they wrote (C11_ConcOwnData); listings of the Postgres driver (key-range scan on the fake) are judged for cross-type / cross-session entries.'
+        ' Families of session ids and keys that differ in one punctuation character (every ordered pair) and the empty key are part of the universes.',
    design_ref='DESIGN.md section 6 (C11)',
    note='Trusted: TLC, recorder provenance table. Three known findings (dot ambiguity, fs path cleaning, fs legacy name) matched by predicates over the recorded history; any other cross-read fails the check.',
    technique='TLA+ spec + TLC injectivity enumeration + trace validation with value provenance on four real backends'),
@@ -173,7 +181,8 @@ CHECKS = {
    text='FsSave.tla is a directory of files under primitive operations with a Crash action before every operation and torn writes (model only); the operation sequence of a save is not '
         'assumed but recorded from the real code with strace and fed to the model, so TLC enumerates every crash point of what the code really does; the real saving process is then killed '
         '(strace fault injection, SIGKILL on entry to the call) at every store-touching system call of the save, for several consecutive old/new state pairs; a fresh process loads the session, '
-        'classifies it old / new / corrupt / missing, serves one more request (must continue, not restart) and checks the neighbouring session\'s record; model prediction and real outcome must agree.',
+        'classifies it old / new / corrupt / missing, serves one more request (must continue, not restart) and checks the neighbouring session\'s record; model prediction and real outcome must agree.'
+        " The two sessions' ids differ in one punctuation character; the neighbour's record is compared before and after the session is served.",
    design_ref='DESIGN.md section 6 (C12)',
    note='Trusted: strace injection, the single-threaded saver, the classification by projection of the loaded state. A process death cannot tear one write(2): torn writes are model-only.',
    technique='TLA+ crash model over a strace-recorded operation sequence + real SIGKILL injection at every recorded crash point'),
@@ -183,7 +192,8 @@ CHECKS = {
         'through aliased spare capacity visible; TLC checks NonInterference and NoSharedWrite over all interleavings and emits every complete schedule; each schedule is reproduced exactly on the '
         'real VM (the run-loop hook is the scheduler gate) and compared with solo runs; free-running randomized sessions on 2..16 goroutines over one shared resource (slices with and without spare '
         'capacity) run under the Go race detector with transcript comparison and a check that shared data is unmodified.'
-        " FsSaveConc.tla: the file operations of two real saves (strace) run as two processes over a directory with names, inodes and open files; TLC explores every interleaving (each record ends as its own session's complete state). Free-running mode F: own fs store handles on one shared directory.",
+        " FsSaveConc.tla: the file operations of two real saves (strace) run as two processes over a directory with names, inodes and open files; TLC explores every interleaving (each record ends as its own session's complete state). Free-running mode F: own fs store handles on one shared directory."
+        ' Half of the histories are served with a configured default language; the language a session ends each request with is part of the transcripts.',
    design_ref='DESIGN.md section 6 (C19)',
    note='Trusted: TLC, the Go race detector (decides the "no data race" half), the hook gate. The model covers aliasing of the code buffer; other shared state is searched for by the race detector only.',
    technique='TLA+ interleaving/aliasing model + TLC schedules replayed deterministically + race-detector runs'),
